@@ -21,7 +21,9 @@ Clauses(a2, w2) ==
         (IF \E o \in Ovls : ~IsOpen(a2, o) /\ Count(S.cur, Root(o)) > 0 THEN {"HandlersOfEndedOverlayInstalled"} ELSE {}) \cup
         (IF \E o \in Ovls : IsOpen(a2, o) /\ Count(S.cur, Root(o)) # 1 THEN {"OpenOverlayNotInstalled"} ELSE {}) \cup
         (IF S.cur # ACur(a2) THEN {"HandlersSeenByDriver"} ELSE {})) \cup
-  UNION { IF Len(S.recv[o]) = w2[o] THEN {} ELSE IF Len(S.recv[o]) > w2[o] THEN {"ExtraEvent"} ELSE {"EventLost"} : o \in Ovls }
+  UNION { IF Len(S.recv[o]) = w2[o] THEN {} ELSE IF Len(S.recv[o]) > w2[o] THEN {"ExtraEvent"} ELSE {"EventLost"} : o \in Ovls } \cup
+  \* C17 in this world: a stage attached after a probe was left sees nothing, whatever generators were suspended inside it
+  (IF \E o \in Ovls : S.late[o] > 0 THEN {"LateStageNotSilent"} ELSE {})
 Add(a2, w2, m2, mw2) == fails \o SetToSeq({ [line |-> l, clause |-> c, mech |-> Mech(m2, mw2), op |-> S.op[1]] : c \in Clauses(a2, w2) })
 Step ==
   /\ l <= Len(T.steps) /\ l' = l + 1 /\ UNCHANGED tid
